@@ -250,8 +250,6 @@ UNIT = Unit(
             loop_contracts=True, reach=['entry:convertHelper', 'after_loop0:convertHelper'], timeout=600, flags=['--object-bits', '12']),
         Job('w2l_alphabet', 'h_w2l_bounded', cls='B', unwind=11, dfcc=False, defines=['XV_BOUNDED', 'XV_ALPHABET'], reach=['h_w2l_bounded'],
             bound_note='all strings of fewer than 10 units over the 10 representative units NUL space LF - . 0 1 7 9 x (one per class the function distinguishes)', timeout=900),
-        Job('w2l_bounded', 'h_w2l_bounded', cls='W', unwind=11, thorough_only=True, dfcc=False, defines=['XV_BOUNDED'], reach=['h_w2l_bounded'],
-            bound_note='complete for the precondition of the fast path: all strings of fewer than 10 UTF-16 units (full alphabet)', timeout=900),
     ],
     mutants=[
         Mutant('threshold_20', DS, r'theLongHackThreshold = 10;', 'theLongHackThreshold = 20;', expect=None),
